@@ -133,6 +133,8 @@ func c10Data(variant int) map[string]interface{} {
 		"f":  f,
 		"m":  map[string]interface{}{"f": mf},
 		"c":  "unrelated-c", "d": 4.0, "z": true,
+		// top-level keys SPELLED like paths: no formula reads them (a.q is member q of a, here missing)
+		"a.q": "flat-a.q", "a.b": "flat-a.b", "a.b.c": "flat-a.b.c", "$l.x": "flat-$l.x", "a.true": "flat",
 	}
 }
 
@@ -331,7 +333,7 @@ type c10Gen struct {
 	memo map[int][]string
 }
 
-var c10Atoms = []string{"a", "b", "$l", "1", "a.b", "a.b.c", "a!.b", "$l.x", "a.true", "'s'", "this", "c"}
+var c10Atoms = []string{"a", "b", "$l", "1", "a.b", "a.b.c", "a!.b", "$l.x", "a.true", "'s'", "this", "c", "a.q"}
 var c10Refusals = []string{"(a).b", "f(a).b", "'s'.b", "this.b", "[a].b", "(a.b).c", "a.b(1).c"}
 
 func (g *c10Gen) gen(n int) []string {
